@@ -36,7 +36,7 @@ TraceInit ==
     /\ where = [p \in Payloads |-> NoWhere]
     /\ xobs = [x \in DOMAIN Execs |-> NoX]
     /\ segopen = [f \in {"asyncio", "trio", "threading"} |-> 0]
-    /\ marks = [aborted |-> FALSE, straystart |-> FALSE, loopexited |-> FALSE, earlyfail |-> FALSE, quiescent |-> FALSE, timeouts |-> 0, blocked |-> FALSE, coroafterblock |-> 0, failedatq |-> FALSE, lostatq |-> FALSE,
+    /\ marks = [aborted |-> FALSE, straystart |-> FALSE, loopexited |-> FALSE, earlyfail |-> FALSE, closingonfail |-> FALSE, quiescent |-> FALSE, timeouts |-> 0, blocked |-> FALSE, coroafterblock |-> 0, failedatq |-> FALSE, lostatq |-> FALSE,
                 stuckatq |-> FALSE, exfail |-> FALSE, execstuck |-> FALSE, adoptstuck |-> FALSE, shutstuck |-> FALSE, restartfail |-> FALSE, stall |-> FALSE]
 
 Step_ == l <= Len(Tr.events) /\ l' = l + 1 /\ UNCHANGED tid
@@ -115,7 +115,10 @@ TRunningSet == /\ Ev.e = "RunningSet"
                /\ nc' = (nc \/ ~RunningSet(Ev.r))
 TCloseBegin == /\ Ev.e = "CloseBegin"
                /\ phase' = [phase EXCEPT ![Ev.r] = "closing"]
-               /\ UNCHANGED <<guard, pst, starts, endhow, cleanleft, adoptret, sigint, shut, result, xst, h, where, xobs, segopen, marks>>
+               \* the runtime begins to close its runners BECAUSE OF A FAILURE (no stop has been
+               \* requested, nobody has interrupted): from here on the run can only end by raising
+               /\ marks' = [marks EXCEPT !.closingonfail = @ \/ (Ev.r = 1 /\ Failed # {} /\ Kbd = {} /\ ~sigint /\ shut = "none")]
+               /\ UNCHANGED <<guard, pst, starts, endhow, cleanleft, adoptret, sigint, shut, result, xst, h, where, xobs, segopen>>
                /\ nc' = (nc \/ ~CloseBegin(Ev.r))
 TCloseEnd == /\ Ev.e = "CloseEnd"
              /\ phase' = [phase EXCEPT ![Ev.r] = "closed"]
@@ -137,7 +140,7 @@ TAcceptRet == /\ Ev.e = "AcceptRet"
                                          \/ (Ev.exc = "SystemExit" /\ AcceptAbort(Ev.r, [kind |-> Ev.kind, cause |-> Ev.cause]))))
 TSigint == /\ Ev.e = "Sigint" /\ sigint' = TRUE
            /\ UNCHANGED <<phase, guard, pst, starts, endhow, cleanleft, adoptret, shut, result, xst, h, where, xobs, segopen, marks>>
-           /\ nc' = (nc \/ phase[1] # "running")
+           /\ nc' = (nc \/ phase[1] \notin {"running", "closing", "closed"})
 TShutdownCall == /\ Ev.e = "ShutdownCall" /\ shut' = "called"
                  /\ UNCHANGED <<phase, guard, pst, starts, endhow, cleanleft, adoptret, sigint, result, xst, h, where, xobs, segopen, marks>>
                  /\ nc' = (nc \/ phase[1] \in {"idle", "starting"})
@@ -234,7 +237,13 @@ NoOverlap == ~h.overlap
 FailStopObserved == ~marks.failedatq
 \* C01 while a stop has been requested: a failure that met open runners (before the service loop
 \* left) ends the run by raising, the shutdown() in progress notwithstanding
-FailStopWhileStopping == (marks.earlyfail /\ phase[1] = "ended") => result[1].kind # "returned"
+FailStopWhileStopping ==
+    /\ (marks.earlyfail /\ phase[1] = "ended" /\ ~sigint /\ Kbd = {}) => result[1].kind # "returned"
+    \* ... and an interrupt (^C, a payload raising KeyboardInterrupt) that arrives while the runtime
+    \* is already closing because of a failure does not make the failure pass silently.  (A
+    \* failure the runtime has not noticed yet - trio reports one only when its payloads have
+    \* finished their shielded cleanup - loses the race against the interrupt: DESIGN 7.6.)
+    /\ (marks.closingonfail /\ phase[1] = "ended") => result[1].kind # "returned"
 ExactlyOnceObserved == ~marks.lostatq
 TerminationObserved == ~marks.stuckatq
 ExecNotAFailureObserved == ~marks.exfail
